@@ -3,7 +3,13 @@ of module-level values, instance attributes and module-level call results as val
 import sys
 import types
 
-LIT = {"int": "1", "str": '"s"', "float": "1.5", "bool": "True", "none": "None"}
+LIT = {"int": "1", "str": '"s"', "float": "1.5", "bool": "True", "none": "None",
+       "zero": "0", "empty": '""'}     # zero / empty: second family only (keys, patterns)
+SPLIT = {"empty": '"".split()', "one": '"s".split()', "two": '"s s".split()'}
+SLICE = {"tail": "[1:]", "head": "[:1]"}
+# statement kinds of the second family (ProgGen.tla, switches Mutation / Match)
+MUT_STMTS = ("setitem", "delitem", "setattr", "augadd", "mcall", "expr")
+NEW_STMTS = MUT_STMTS + ("mdef", "match", "matchdef")
 
 
 def expr(e):
@@ -51,7 +57,78 @@ def expr(e):
     return "(lambda p1: %s)" % expr(e[1])
   if k == "lcomp":
     return "[%s for v in %s]" % (expr(e[1]), expr(e[2]))
+  if k == "split":
+    return SPLIT[e[1]]
+  if k == "dict0":
+    return "{}"
+  if k == "mx":
+    recv = "(%s)" % expr(e[1]) if e[1][0] == "lit" else expr(e[1])
+    return "%s.%s(%s)" % (recv, e[2], ", ".join(expr(x) for x in e[3]))
+  if k == "slice":
+    return "%s%s" % (expr(e[1]), SLICE[e[2]])
   raise ValueError(e)
+
+
+def pat(p):
+  """Pattern term -> source."""
+  k = p[0]
+  if k == "pval":
+    return LIT[p[1]]
+  if k == "pwild":
+    return "_"
+  if k == "pcap":
+    return p[1]
+  if k == "pseq":
+    xs = [pat(x) for x in p[2]]
+    if p[1] == "l":
+      return "[%s]" % ", ".join(xs)
+    return "(%s,)" % xs[0] if len(xs) == 1 else "(%s)" % ", ".join(xs)
+  if k == "pstar":
+    return "[%s]" % ", ".join([pat(x) for x in p[1]] + ["*" + p[2]] + [pat(x) for x in p[3]])
+  if k == "pmap":
+    xs = ["%s: %s" % (expr(kk), pat(v)) for kk, v in p[1]]
+    if p[2]:
+      xs.append("**" + p[2])
+    return "{%s}" % ", ".join(xs)
+  if k == "pcls":
+    xs = [pat(x) for x in p[2]] + ["%s=%s" % (a, pat(v)) for a, v in p[3]]
+    return "%s(%s)" % (p[1], ", ".join(xs))
+  if k == "por":
+    return "%s | %s" % (pat(p[1]), pat(p[2]))
+  if k == "pas":
+    inner = pat(p[1])
+    return "%s as %s" % ("(%s)" % inner if p[1][0] == "por" else inner, p[2])
+  raise ValueError(p)
+
+
+def _params(n, star):
+  return ", ".join(["p%d" % (i + 1) for i in range(n)] + (["*ps"] if star else []))
+
+
+def _cases(cases, ind, body):
+  out = []
+  for p, g, e in cases:
+    out.append("%scase %s%s:" % (ind, pat(p), "" if g[0] == "noguard" else " if %s" % expr(g)))
+    out.append("%s  %s" % (ind, body % expr(e)))
+  return out
+
+
+def simple_stmt(s):
+  """The one-line statements of the second family (module level and function bodies)."""
+  k = s[0]
+  if k == "setitem":
+    return "%s[%s] = %s" % (expr(s[1]), expr(s[2]), expr(s[3]))
+  if k == "delitem":
+    return "del %s[%s]" % (expr(s[1]), expr(s[2]))
+  if k == "setattr":
+    return "%s.%s = %s" % (expr(s[1]), s[2], expr(s[3]))
+  if k == "augadd":
+    return "%s += %s" % (expr(s[1]), expr(s[2]))
+  if k == "mcall":
+    return "%s.%s(%s)" % (expr(s[1]), s[2], ", ".join(expr(x) for x in s[3]))
+  if k == "expr":
+    return expr(s[1])
+  raise ValueError(s)
 
 
 def stmt(s):
@@ -85,7 +162,33 @@ def stmt(s):
     if len(out) == 1:
       out.append("  pass")
     return "\n".join(out) + "\n"
+  if k in MUT_STMTS:
+    return simple_stmt(s) + "\n"
+  if k == "mdef":
+    _, f, n, star, body, t, e1, e2 = s
+    out = ["def %s(%s):" % (f, _params(n, star))]
+    out += ["  " + simple_stmt(m) for m in body]
+    out += ["  if %s:" % expr(t), "    return %s" % expr(e1), "  return %s" % expr(e2)]
+    return "\n".join(out) + "\n"
+  if k == "match":
+    _, x, subj, cases = s
+    return "\n".join(["match %s:" % expr(subj)] + _cases(cases, "  ", x + " = %s")) + "\n"
+  if k == "matchdef":
+    _, f, n, star, subj, cases, e = s
+    out = ["def %s(%s):" % (f, _params(n, star)), "  match %s:" % expr(subj)]
+    out += _cases(cases, "    ", "return %s")
+    out.append("  return %s" % expr(e))
+    return "\n".join(out) + "\n"
   raise ValueError(s)
+
+
+def match_lines(s, start):
+  """Line of the match header and of every case body of statement term s starting at line `start`."""
+  if s[0] == "match":
+    return start, [start + 2 + 2 * j for j in range(len(s[3]))]
+  if s[0] == "matchdef":
+    return start + 1, [start + 3 + 2 * j for j in range(len(s[5]))]
+  return None
 
 
 def kinds(prog):
@@ -96,7 +199,10 @@ def kinds(prog):
     if isinstance(t, list) and t and isinstance(t[0], str) and t[0] in (
         "lit", "name", "list", "tuple", "set", "dict", "add", "cond", "or", "and", "not", "cmp",
         "isnone", "isinst", "sub", "bcall", "attr", "meth", "call", "lambda", "lcomp", "assign",
-        "if", "ifonly", "try", "def", "class"):
+        "if", "ifonly", "try", "def", "class",
+        "split", "dict0", "mx", "slice", "setitem", "delitem", "setattr", "augadd", "mcall", "expr",
+        "mdef", "match", "matchdef", "pval", "pwild", "pcap", "pseq", "pstar", "pmap", "pcls", "por",
+        "pas"):
       out[t[0]] = out.get(t[0], 0) + 1
     if isinstance(t, list):
       for x in t:
@@ -112,9 +218,15 @@ class _Recorder:
   an exception) by calls made from module level."""
   TOOL = 4
 
-  def __init__(self):
+  def __init__(self, snapshot=None, lines=False):
     self.calls = []     # (code object, returned value)
     self.sites = []     # parallel to calls: line number (module frame) of the calling statement
+    # second family (objects are mutated after they were returned): snapshot(value) -> value term is
+    # taken AT RETURN TIME; self.snaps is parallel to calls
+    self.snapshot = snapshot
+    self.snaps = []
+    self.want_lines = lines
+    self.lines = {}     # line number -> how often a line of <prog> started executing
 
   def on_return(self, code, offset, retval):
     if code.co_filename != "<prog>":
@@ -123,24 +235,36 @@ class _Recorder:
     if f.f_back is not None and f.f_back.f_code.co_name == "<module>":
       self.calls.append((code, retval))
       self.sites.append(f.f_back.f_lineno)
+      if self.snapshot is not None:
+        self.snaps.append(self.snapshot(retval))
+
+  def on_line(self, code, line):
+    if code.co_filename == "<prog>":
+      self.lines[line] = self.lines.get(line, 0) + 1
 
   def start(self):
     m = sys.monitoring
     m.use_tool_id(self.TOOL, "verif-c01")
     m.register_callback(self.TOOL, m.events.PY_RETURN, self.on_return)
-    m.set_events(self.TOOL, m.events.PY_RETURN)
+    ev = m.events.PY_RETURN
+    if self.want_lines:
+      m.register_callback(self.TOOL, m.events.LINE, self.on_line)
+      ev |= m.events.LINE
+    m.set_events(self.TOOL, ev)
 
   def stop(self):
     m = sys.monitoring
     m.set_events(self.TOOL, 0)
     m.register_callback(self.TOOL, m.events.PY_RETURN, None)
+    if self.want_lines:
+      m.register_callback(self.TOOL, m.events.LINE, None)
     m.free_tool_id(self.TOOL)
 
 
 MAX_DEPTH = 12
 
 
-def _encode(obj, H, depth=0):
+def _encode(obj, H, depth=0, stack=None):
   """Run-time value -> value term; records class MROs in H.
 
   A PEP 585 alias object (`list[int]`, also the degenerate `set[0]`: an instance of
@@ -149,7 +273,10 @@ def _encode(obj, H, depth=0):
   the origin) and PEP 484/585 define it to denote the class in the type language, which is how
   pytype (and every PEP 484 checker) models it: `x = list[int]` is `x: type[list[int]]`.
   A value nested deeper than MAX_DEPTH is cut off with the marker "$deep", which every type admits
-  in the soundness reading (PytdTypes.tla); the fixed C01 corpus has no value deeper than 7."""
+  in the soundness reading (PytdTypes.tla); the fixed C01 corpus has no value deeper than 7.
+  stack (second family, where `x.append(x)` can build cyclic values): ids of the containers being
+  encoded; a container met again inside itself has no finite value term and is cut off with the same
+  marker at the back edge."""
   if isinstance(obj, types.GenericAlias) and isinstance(obj.__origin__, type):
     obj = obj.__origin__
   if isinstance(obj, type):
@@ -162,24 +289,58 @@ def _encode(obj, H, depth=0):
   H.setdefault(name, [c.__name__ for c in cls.__mro__])
   if depth > MAX_DEPTH:
     return ["$deep", []]
+  if stack is not None and cls in (list, tuple, set, frozenset, dict):
+    if id(obj) in stack:
+      return ["$deep", []]
+    stack = stack | {id(obj)}
   if cls in (list, tuple):
-    return [name, [_encode(x, H, depth + 1) for x in obj]]
+    return [name, [_encode(x, H, depth + 1, stack) for x in obj]]
   if cls in (set, frozenset):
-    return [name, sorted((_encode(x, H, depth + 1) for x in obj), key=repr)]
+    return [name, sorted((_encode(x, H, depth + 1, stack) for x in obj), key=repr)]
   if cls is dict:
-    return [name, sorted(([_encode(k, H, depth + 1), _encode(x, H, depth + 1)]
+    return [name, sorted(([_encode(k, H, depth + 1, stack), _encode(x, H, depth + 1, stack)]
                           for k, x in obj.items()), key=repr)]
   return [name, []]
 
 
-def run_program(prog):
+def _filter_strict(srcs):
+  """Second family: a statement that raises may already have mutated something, so the state after a
+  dropped statement is not the state of the filtered program.  Statement k is kept iff the program
+  made of the statements kept so far plus k runs to completion FROM SCRATCH."""
+  kept = []
+  for k, src in enumerate(srcs):
+    try:
+      code = compile("".join(srcs[j] for j in kept) + src, "<prog>", "exec")
+    except SyntaxError:
+      continue
+    try:
+      exec(code, {"__name__": "prog"})  # pylint: disable=exec-used
+      kept.append(k)
+    except RecursionError:
+      return None
+    except Exception:  # pylint: disable=broad-except
+      continue
+  return kept
+
+
+def run_program(prog, strict=False):
   """Filter the statements that execute without raising (in order), re-execute the filtered
-  program from scratch with recording.  Returns dict(src, stmts, names, attrs, rets, H) or None."""
+  program from scratch with recording.  Returns dict(src, stmts, names, attrs, rets, H) or None.
+  strict (second family: programs that mutate objects): prefix re-execution filter, call results are
+  turned into value terms at return time, cyclic values are cut off, executed lines are recorded
+  (-> match_hits: per match statement [statement index, executions, [hits per case]])."""
   srcs = [stmt(s) for s in prog]
   ns = {"__name__": "prog"}
   kept = []
   old = sys.getrecursionlimit()
-  for k, src in enumerate(srcs):
+  if strict:
+    kept = _filter_strict(srcs)
+    if kept is None:
+      return None
+    srcs_iter = []
+  else:
+    srcs_iter = enumerate(srcs)
+  for k, src in srcs_iter:
     try:
       exec(compile(src, "<prog>", "exec"), ns)  # pylint: disable=exec-used
       kept.append(k)
@@ -191,7 +352,8 @@ def run_program(prog):
     return None
   final_src = "".join(srcs[k] for k in kept)
   ns = {"__name__": "prog"}
-  rec = _Recorder()
+  H = {}
+  rec = _Recorder(snapshot=(lambda v: _encode(v, H, 0, frozenset())), lines=True) if strict else _Recorder()
   rec.start()
   try:
     exec(compile(final_src, "<prog>", "exec"), ns)  # pylint: disable=exec-used
@@ -200,22 +362,24 @@ def run_program(prog):
   finally:
     rec.stop()
     sys.setrecursionlimit(old)
-  H = {}
+  if not strict:
+    H = {}
+  stack = frozenset() if strict else None
   names = {}
   attrs = []
   user = {v for v in ns.values() if isinstance(v, type) and v.__module__ == "prog"}
   for n, v in ns.items():
     if n.startswith("__"):
       continue
-    names[n] = _encode(v, H)
+    names[n] = _encode(v, H, 0, stack)
     if type(v) in user:
       for a, av in sorted(vars(v).items()):
-        attrs.append([type(v).__name__, a, _encode(av, H)])
+        attrs.append([type(v).__name__, a, _encode(av, H, 0, stack)])
   # call results: map code objects to (unique) module-level definitions
   code_name = {}
   defined = {}
   for s in [prog[k] for k in kept]:
-    if s[0] in ("def", "class") or (s[0] == "assign" and s[2][0] == "lambda"):
+    if s[0] in ("def", "class", "mdef", "matchdef") or (s[0] == "assign" and s[2][0] == "lambda"):
       defined[s[1]] = defined.get(s[1], 0) + 1
   for n, v in ns.items():
     if isinstance(v, types.FunctionType) and defined.get(n) == 1 and v.__code__.co_name in (n, "<lambda>"):
@@ -230,9 +394,17 @@ def run_program(prog):
   for k in kept:
     starts.append(line)
     line += srcs[k].count("\n")
-  for (code, val), site in zip(rec.calls, rec.sites):
+  for j, ((code, val), site) in enumerate(zip(rec.calls, rec.sites)):
     if code in code_name:
-      rets.append([code_name[code], _encode(val, H)])
+      rets.append([code_name[code], rec.snaps[j] if strict else _encode(val, H)])
       ret_sites.append(max(i for i, st in enumerate(starts) if st <= site))
-  return {"src": final_src, "stmts": [prog[k] for k in kept], "names": names, "attrs": attrs,
-          "rets": rets, "ret_sites": ret_sites, "H": H}
+  out = {"src": final_src, "stmts": [prog[k] for k in kept], "names": names, "attrs": attrs,
+         "rets": rets, "ret_sites": ret_sites, "H": H}
+  if strict:
+    hits = []
+    for i, k in enumerate(kept):
+      ml = match_lines(prog[k], starts[i])
+      if ml:
+        hits.append([i, rec.lines.get(ml[0], 0), [rec.lines.get(b, 0) for b in ml[1]]])
+    out["match_hits"] = hits
+  return out
